@@ -69,9 +69,15 @@ fn parse_header(header: &str) -> Result<Header, ParseError> {
             })
         }
         Some(UNKNOWN) => {
-            while iterator.next_if(|&s| s != NEWLINE).is_some() {}
-
-            Addresses::Unknown
+            // Anything may follow the protocol of an unknown connection, only the line ending matters.
+            return if header.ends_with(PROTOCOL_SUFFIX) {
+                Ok(Header {
+                    header: Cow::Borrowed(header),
+                    addresses: Addresses::Unknown,
+                })
+            } else {
+                Err(ParseError::MissingNewLine)
+            };
         }
         Some(protocol) if protocol.is_empty() && iterator.peek().is_none() => {
             return Err(ParseError::MissingProtocol)
@@ -92,7 +98,7 @@ fn parse_header(header: &str) -> Result<Header, ParseError> {
         .filter(|s| !s.is_empty())
         .ok_or(ParseError::MissingNewLine)?;
 
-    if newline != NEWLINE {
+    if newline != NEWLINE || !header.ends_with(PROTOCOL_SUFFIX) {
         return Err(ParseError::InvalidSuffix);
     }
 
